@@ -519,6 +519,14 @@ fn macro_scenarios(rep: &mut Report) {
         ("[x0==1,false]", G::Conj(0, vec![G::Eq(0, 1), G::Fail]), mk!(x0, x1, x2, proto_vulcan!([x0 == 1, false])), false),
         ("x0!=1,conde", G::Conj(0, vec![G::Ne(vec![(A::V(0), A::K(1))]), choice(0)]),
             mk!(x0, x1, x2, proto_vulcan!([x0 != 1, conde { x0 == 1, x0 == 2, x0 == 3 }])), false),
+        // match with `|`-alternatives inside dfs: alternatives in the order written, then the next arm (C05; the match
+        // macro is out of the verifier's reach)
+        ("dfs{match[1,2,3]{[x|_]|[_,x|_]=>x0==x,[_,_,x]=>x0==x}}", G::Disj(0, vec![vec![G::Eq(0, 1)], vec![G::Eq(0, 2)], vec![G::Eq(0, 3)]]),
+            mk!(x0, x1, x2, proto_vulcan!(dfs { match [1, 2, 3] { [x | _] | [_, x | _] => x0 == x, [_, _, x] => x0 == x } })), true),
+        ("dfs{match[1,2]{[x,_]|[_,x]=>cond{x0==x,x1==x}}}", G::Disj(0, vec![vec![G::Disj(0, vec![vec![G::Eq(0, 1)], vec![G::Eq(1, 1)]])], vec![G::Disj(0, vec![vec![G::Eq(0, 2)], vec![G::Eq(1, 2)]])]]),
+            mk!(x0, x1, x2, proto_vulcan!(dfs { match [1, 2] { [x, _] | [_, x] => cond { x0 == x, x1 == x } } })), true),
+        ("match[1,2]{[x,_]|[_,x]=>x0==x}", G::Disj(0, vec![vec![G::Eq(0, 1)], vec![G::Eq(0, 2)]]),
+            mk!(x0, x1, x2, proto_vulcan!(match [1, 2] { [x, _] | [_, x] => x0 == x })), false),
         // C12: the `for` macro; a body of several clauses is their conjunction, for every element
         ("for[x0,x1]{x!=1,conde{x==1,x==2}}", G::For(vec![A::V(0), A::V(1)], Box::new(G::Conj(0, vec![G::Ne(vec![(A::V(3), A::K(1))]), G::Disj(0, vec![vec![G::Eq(3, 1)], vec![G::Eq(3, 2)]])]))),
             mk!(x0, x1, x2, { let coll = vec![x0.clone(), x1.clone()]; proto_vulcan!(for x in &coll { x != 1, conde { x == 1, x == 2 } }) }), false),
